@@ -29,6 +29,17 @@ class Boom(Exception):
     """The caller's own exception, raised inside a squash_changes block."""
 
 
+class FalsyBoom(Exception):
+    """An exception whose INSTANCE is falsy (like an aggregate of zero errors): `if exc:` is not
+    the same as `if exc is not None:`."""
+
+    def __bool__(self):
+        return False
+
+    def __len__(self):
+        return 0
+
+
 class Abandon(Exception):
     """Not raised inside the block: marks a block whose context manager is entered by hand
     and then simply dropped (never exited) and garbage-collected."""
@@ -137,7 +148,12 @@ class PrefixDict(dict):
         return set(self._hidden)
 
 
-ABORT_EXC = [Boom, BoomBase, KeyboardInterrupt, GeneratorExit, Abandon]
+class CallersKeyError(KeyError):
+    """The caller's own KeyError (a failed lookup in its own dict), raised inside the block: the
+    library handles KeyError from the database in many places - this one is not the database's."""
+
+
+ABORT_EXC = [Boom, BoomBase, KeyboardInterrupt, GeneratorExit, Abandon, FalsyBoom, CallersKeyError, KeyError]
 ALL_ABORTS = tuple(ABORT_EXC)
 
 
@@ -278,6 +294,7 @@ def gen_history(rnd, nops, prune=None, batch_p=0.25, kind=None, abort_p=0.35, un
         "in_handler": rnd.random() < 0.25,
         "late_enter": rnd.random() < 0.2,
         "under_snapshot": rnd.random() < 0.25,
+        "rc": "counter" if rnd.random() < 0.2 else "default",
         "db": rnd.choice(["dict", "dict", "dictsub", "dictsub"]) if rnd.random() < 0.25 else "recording",
     }
 
@@ -423,17 +440,28 @@ class Runner:
         self.case = case
         self.ctx = ctx
         self.prune = case["prune"]
+        # the blank root handed to the constructor is an EQUAL BUT NOT IDENTICAL bytes object
+        # (as a root read back from storage would be)
+        blank = bytes(bytearray(BLANK_ROOT))
+        rc_kw = {}
+        if self.prune and case.get("rc") == "counter":
+            # the caller hands in the mapping that keeps the counts: a collections.Counter
+            # (a dict subclass whose update() ADDS)
+            from collections import Counter
+
+            rc_kw = {"ref_count": Counter()}
+            ctx.count("ref_counts_in_a_counter")
         if case.get("db") == "dict":
             self.db = DictShim()
-            self.trie = HexaryTrie(self.db.d, prune=self.prune)
+            self.trie = HexaryTrie(self.db.d, blank, prune=self.prune, **rc_kw)
             ctx.count("histories_over_a_real_dict")
         elif case.get("db") == "dictsub":
             self.db = PrefixDict()
-            self.trie = HexaryTrie(self.db, prune=self.prune)
+            self.trie = HexaryTrie(self.db, blank, prune=self.prune, **rc_kw)
             ctx.count("histories_over_a_dict_subclass")
         else:
             self.db = RecordingDB()
-            self.trie = HexaryTrie(self.db, prune=self.prune)
+            self.trie = HexaryTrie(self.db, blank, prune=self.prune, **rc_kw)
         self.model = {}
         self.rnd = random.Random(case.get("pseed", 0))
         self.universe = None
